@@ -48,6 +48,8 @@ package errors
 //@   requires tablesOK() && classesOK()
 //@   ensures statusCode(err) != codes.Unknown ==> r0 == err
 //@   ensures statusCode(err) == codes.Unknown ==> fresh(r0) && statusCode(r0) != codes.Unknown && statusCode(r0) != codes.OK && forall(t, error, errIs(r0, t) == (t == r0))
+// the message is carried over verbatim (so an embedded object, which lives in the text, survives the boundary)
+//@   ensures statusCode(err) == codes.Unknown ==> statusMsg(r0) == errText(err)
 //@   ensures statusCode(err) == codes.Unknown && has(errorsToCode, err) ==> statusCode(r0) == errorsToCode[err]
 //@   ensures statusCode(err) == codes.Unknown && !has(errorsToCode, err) ==> (statusCode(r0) == codes.Internal && forall(e, error, has(errorsToCode, e) ==> !errIs(err, e))) || exists(e, error, has(errorsToCode, e) && errIs(err, e) && statusCode(r0) == errorsToCode[e])
 
